@@ -376,23 +376,50 @@ Fixpoint obs_at (a : A) (prev : dump) (ops : list top) (n : nat) : option obs :=
   end.
 End Diff.
 
-Definition stepS := step opsS.
+(* ---- Array.prototype as a global ---------------------------------------------------------------------------
+   The object models carry the prototype AS THE RECEIVER SEES IT.  Array.prototype itself is global: the fresh arrays
+   passed to concat inherit from it whatever Object.setPrototypeOf(receiver, null) did to the receiver.  The runs
+   therefore thread (global Array.prototype, receiver detached?) next to the object state. *)
+Definition wst (A : Type) : Type := A * (list (N * element) * bool).
+Definition winit {A} (a : A) : wst A := (a, ([], false)).
+Definition fill_items (gp : list (N * element)) (it : list (option N)) : list (option N) :=
+  map (fun p => match snd p with
+                | Some v => Some v
+                | None => match alookup gp (fst p) with Some e => Some (el_getv e) | None => None end
+                end) (combine (seqN 0 (length it)) it).
+Definition wstep {A} (stepf : A -> top -> A * result) (w : wst A) (o : top) : wst A * result :=
+  let '(a, (gp, det)) := w in
+  match o with
+  | OProto k f x y =>
+      let gp' := if f =? 99 then adel gp k else ains gp k (dec_ent f x y) in
+      ((if det then a else fst (stepf a o), (gp', det)), RU)
+  | ONullProto => let '(a', r) := stepf a o in ((a', (gp, match r with RU => true | _ => det end)), r)
+  | OConcat items => let '(a', r) := stepf a (OConcat (map (fill_items gp) items)) in ((a', (gp, det)), r)
+  | _ => let '(a', r) := stepf a o in ((a', (gp, det)), r)
+  end.
+
+Definition stepS := wstep (step opsS).
+Definition stepIW := wstep stepI.
+Definition stepGW := wstep (step opsG).
+Definition s_dumpW (w : wst sarr) := s_dump (fst w).
+Definition i_dumpW (w : wst iarr) := i_dump (fst w).
+Definition g_dumpW (w : wst (list val)) := g_dump (fst w).
 Definition diffN (c : tcase) :=
-  if c_kind c =? 2 then diff_run (step opsG) g_dump (initG (c_init c)) DSame (c_ops c) (c_obsN c) 0
-  else diff_run stepS s_dump (initS (c_kind c) (c_init c)) DSame (c_ops c) (c_obsN c) 0.
+  if c_kind c =? 2 then diff_run stepGW g_dumpW (winit (initG (c_init c))) DSame (c_ops c) (c_obsN c) 0
+  else diff_run stepS s_dumpW (winit (initS (c_kind c) (c_init c))) DSame (c_ops c) (c_obsN c) 0.
 Definition diffT (c : tcase) :=
-  match c_obsT c with [] => None | t => diff_run stepS s_dump (initS (c_kind c) (c_init c)) DSame (opsT_of c) t 0 end.
+  match c_obsT c with [] => None | t => diff_run stepS s_dumpW (winit (initS (c_kind c) (c_init c))) DSame (opsT_of c) t 0 end.
 Definition diffI (c : tcase) :=
-  if c_kind c =? 0 then diff_run stepI i_dump (initI (c_init c)) DSame (c_ops c) (c_obsN c) 0 else Some 0.
+  if c_kind c =? 0 then diff_run stepIW i_dumpW (winit (initI (c_init c))) DSame (c_ops c) (c_obsN c) 0 else Some 0.
 Definition diffIT (c : tcase) :=
-  match c_obsT c with [] => None | t => diff_run stepI i_dump (initI (c_init c)) DSame (opsT_of c) t 0 end.
+  match c_obsT c with [] => None | t => diff_run stepIW i_dumpW (winit (initI (c_init c))) DSame (opsT_of c) t 0 end.
 
 (* ---- which recorded defect of the faithful model I is exercised at an op ---------------------- *)
-Fixpoint istate_at (a : iarr) (ops : list top) (n : nat) : iarr * option top :=
+Fixpoint istate_at (a : wst iarr) (ops : list top) (n : nat) : wst iarr * option top :=
   match n, ops with
   | _, [] => (a, None)
   | O, o :: _ => (a, Some o)
-  | S n', o :: r => istate_at (fst (stepI a o)) r n'
+  | S n', o :: r => istate_at (fst (wstep stepI a o)) r n'
   end.
 
 Definition nonconf_at (a : iarr) (k : N) : bool :=
@@ -433,7 +460,8 @@ Definition values_longer (a : iarr) : bool :=
 Definition tags (a : iarr) (o : top) : list N := [].
 
 Definition tags_at (c : tcase) (ops : list top) (n : N) : list N :=
-  let '(ia, o) := istate_at (initI (c_init c)) ops (N.to_nat n) in
+  let '(iw, o) := istate_at (winit (initI (c_init c))) ops (N.to_nat n) in
+  let ia := fst iw in
   match o with Some o => tags ia o | None => [] end.
 
 (* a divergence from S is explained when the faithful model I reproduces the observation up to and including
@@ -485,7 +513,7 @@ Definition expected (c : tcase) :=
   | None => ((diffN c, diffT c, diffI c, diffIT c), (tn, tt), (@None top, @None obs, @None obs))
   | Some n => ((diffN c, diffT c, diffI c, diffIT c), (tn, tt),
                (nth_error ops (N.to_nat n),
-                (if c_kind c =? 2 then obs_at (step opsG) g_dump (initG (c_init c)) DSame ops (N.to_nat n)
-                 else obs_at stepS s_dump (initS (c_kind c) (c_init c)) DSame ops (N.to_nat n)),
-                obs_at stepI i_dump (initI (c_init c)) DSame ops (N.to_nat n)))
+                (if c_kind c =? 2 then obs_at stepGW g_dumpW (winit (initG (c_init c))) DSame ops (N.to_nat n)
+                 else obs_at stepS s_dumpW (winit (initS (c_kind c) (c_init c))) DSame ops (N.to_nat n)),
+                obs_at stepIW i_dumpW (winit (initI (c_init c))) DSame ops (N.to_nat n)))
   end.
